@@ -3,7 +3,10 @@
 A job is {id, byte, prior: [[routine, argset], ...], routine, argset}.  The worker installs
 the poisoning numpy allocator (if asked), executes the prior calls (their results are
 dropped = freed), then the call under test, and returns a bit-exact digest of the result
-together with a check that the arguments were not modified.
+together with a check that the arguments were not modified: every argument (nested lists,
+ndarrays of any layout, sparse matrices including data/indices/indptr, RaggedArrays,
+md.Trajectory coordinates) is fingerprinted before and after the call; only the positions
+listed by purity_routines.writes(name) (documented out= buffers) may differ.
 OMP_NUM_THREADS is fixed by the parent through the environment.
 """
 import hashlib
@@ -15,50 +18,98 @@ import warnings
 HERE = os.path.dirname(os.path.abspath(__file__))
 
 
-def canon(x, h):
+def canon(x, h, structure=False):
+    """Deterministic projection of a value to bytes.  structure=True (used for ARGUMENTS) also hashes the
+    storage of sparse matrices (data / indices / indptr, row / col, lil rows, dok items), so that an in-place
+    change of an argument is seen even where the dense value happens to stay the same; results are compared
+    by type, dtype, shape and dense value only."""
     import numpy as np
     import scipy.sparse as sp
     if x is None:
         h.update(b"None")
-    elif isinstance(x, (tuple, list)):
+    elif isinstance(x, (str, bytes)):
+        h.update(repr(x).encode())
+    elif isinstance(x, (tuple, list)) and not hasattr(x, "_fields"):
         h.update(b"seq%d[" % len(x))
         for y in x:
-            canon(y, h)
+            canon(y, h, structure)
         h.update(b"]")
-    elif isinstance(x, dict):
+    elif isinstance(x, dict) and not sp.issparse(x):
+        h.update(b"dict%d{" % len(x))
         for k in sorted(x, key=str):
             h.update(str(k).encode())
-            canon(x[k], h)
+            canon(x[k], h, structure)
+        h.update(b"}")
     elif sp.issparse(x):
-        h.update(type(x).__name__.encode())
+        h.update(("%s|%s|%s|%s" % (type(x).__name__, x.format, x.shape, x.dtype.str)).encode())
+        if structure:
+            fmt = x.format
+            if fmt in ("csr", "csc", "bsr"):
+                for part in (x.data, x.indices, x.indptr):
+                    canon(np.asarray(part), h)
+            elif fmt == "coo":
+                for part in (x.data, x.row, x.col):
+                    canon(np.asarray(part), h)
+            elif fmt == "lil":
+                canon([list(r) for r in x.rows], h)
+                canon([list(r) for r in x.data], h)
+            elif fmt == "dok":
+                canon(sorted((tuple(int(i) for i in k), v) for k, v in x.items()), h)
+            elif fmt == "dia":
+                canon(np.asarray(x.data), h)
+                canon(np.asarray(x.offsets), h)
         canon(np.asarray(x.toarray()), h)
     elif isinstance(x, np.ndarray):
         if x.dtype == object:
-            h.update(b"objarr")
-            canon(list(x), h)
+            h.update(b"objarr" + str(x.shape).encode())
+            canon(list(x), h, structure)
         else:
             a = np.ascontiguousarray(x)
-            h.update(a.dtype.str.encode() + str(a.shape).encode())
+            h.update(a.dtype.str.encode() + str(x.shape).encode())
             h.update(a.tobytes())
     elif hasattr(x, "_data") and hasattr(x, "lengths"):
         h.update(b"RA")
-        canon(np.asarray(x._data), h)
+        canon(np.asarray(x._data), h, structure)
         canon(np.asarray(x.lengths), h)
+        if structure:                     # the row views of a RaggedArray argument
+            canon([np.asarray(r) for r in x._array], h)
+    elif hasattr(x, "xyz") and hasattr(x, "n_frames"):      # md.Trajectory
+        h.update(b"mdtraj")
+        canon(np.asarray(x.xyz), h)
+        canon(None if x._time is None else np.asarray(x.time), h)
+        canon(None if x.unitcell_vectors is None else np.asarray(x.unitcell_vectors), h)
+        tr = getattr(x, "_rmsd_traces", None)
+        canon(None if tr is None else np.asarray(tr), h)
+    elif isinstance(x, (bool, np.bool_)):
+        h.update(b"b" + repr(bool(x)).encode())
     elif isinstance(x, (float, np.floating)):
         h.update(np.float64(x).tobytes())
-    elif isinstance(x, (int, np.integer, bool, np.bool_)):
+    elif isinstance(x, (complex, np.complexfloating)):
+        h.update(np.complex128(x).tobytes())
+    elif isinstance(x, (int, np.integer)):
         h.update(repr(int(x)).encode())
     elif hasattr(x, "_fields"):           # namedtuple (ClusterResult)
-        canon(tuple(x), h)
-    elif hasattr(x, "to_original"):
-        canon(sorted(x.to_original.items()), h)
-    else:
+        h.update(type(x).__name__.encode())
+        canon(tuple(x), h, structure)
+    elif hasattr(x, "to_original") or type(x).__name__ == "TrimMapping":
+        h.update(b"TrimMapping")
+        canon(sorted(getattr(x, "to_original", {}).items()), h)
+    elif isinstance(x, np.random.RandomState):
+        st = x.get_state()
+        canon([st[0], np.asarray(st[1]), st[2], st[3], st[4]], h)
+    elif isinstance(x, (slice, type(Ellipsis))):
         h.update(repr(x).encode())
+    elif isinstance(x, (set, frozenset)):
+        canon(sorted(x, key=repr), h, structure)
+    elif callable(x):
+        h.update(b"callable:" + getattr(x, "__name__", "?").encode())
+    else:
+        raise TypeError("purity_worker.canon: no projection for %s" % type(x).__name__)
     return h
 
 
-def digest(x):
-    return canon(x, hashlib.sha1()).hexdigest()
+def digest(x, structure=False):
+    return canon(x, hashlib.sha1(), structure).hexdigest()
 
 
 def describe(x):
@@ -107,16 +158,27 @@ def main():
                     pass
                 del args
             args = PR.make_args(job["routine"], job["argset"])
-            before = digest(args)
+            before = [digest(a, True) for a in args]
+            fn = PR.ROUTINES[job["routine"]]
             try:
-                res = PR.ROUTINES[job["routine"]](*args)
-                rec["digest"] = digest(res)
+                res, raised = fn(*args), None
+            except Exception as ex:       # the implementation's exception is a result, not a worker problem
+                res, raised = None, ex
+            if raised is None:
+                rec["digest"] = digest(res)          # a value without projection is a worker error (TypeError)
                 rec["value"] = describe(res)
-            except Exception as ex:
-                rec["digest"] = "raised:" + type(ex).__name__
-                rec["value"] = "%s: %s" % (type(ex).__name__, str(ex)[:120])
-            after = digest(args)
-            rec["args_same"] = (before == after) or job["routine"] in PR.WRITES_ARG
+            else:
+                rec["digest"] = "raised:" + type(raised).__name__
+                rec["value"] = "%s: %s" % (type(raised).__name__, str(raised)[:200])
+                rec["raised"] = True
+            del res
+            after = [digest(a, True) for a in args]
+            # every argument except the documented out= positions must be bit-identical after the call
+            may_write = PR.writes(job["routine"])
+            changed = [i for i, (x, y) in enumerate(zip(before, after)) if x != y and i not in may_write]
+            rec["args_same"] = not changed
+            if changed:
+                rec["args_changed"] = changed
         except Exception as ex:    # worker problem, reported as such
             rec["worker_error"] = "%s: %s" % (type(ex).__name__, ex)
         finally:
